@@ -15,8 +15,8 @@ Print Assumptions C05_checker_decides.
 
 (* every token triple (all 73^3) accepted by the parser and builder models
    builds to well-formed code -- into an empty data object, after a program
-   ending in EndExpression, after a program ending in JumpTo -- unless the
-   tree is in finding class C05-K1 *)
+   ending in EndExpression, after a program ending in JumpTo (the alternative
+   in the statement, class C05-K2, is not produced by the parser) *)
 Theorem C05_triples_bounded_3 : forall a b c init, In init inits ->
   build_wf_or_known [a; b; c] init.
 Proof. exact C05_triples_bounded_3_proof. Qed.
@@ -51,26 +51,25 @@ Theorem C05_small_bounded_7 : forall toks init,
 Proof. exact C05_small_bounded_7_proof. Qed.
 Print Assumptions C05_small_bounded_7.
 
-(* the exclusions are necessary: a member of each class whose build is not well-formed *)
-Theorem C05_K1_refuted :
-  exists root nodes t r,
-    parse k1_tokens = Ok (root, nodes) /\ tree_of nodes root = Some t /\
-    Known_C05_K1 empty_init t /\
-    build nodes empty_init lit_all (build_fuel nodes) root = Ok r /\
-    nth_error (jumps (fst r)) 1 = Some (length (instrs (fst r))) /\
-    ~ wf_code nodes empty_init (code_of_build r).
-Proof. exact K1_refuted. Qed.
-Print Assumptions C05_K1_refuted.
+(* the exclusion is necessary: a member of the class whose build is not well-formed *)
+(* regression: the two shapes of the former finding C05-K1 / C20-K1 (a body that
+   compiles to nothing; repaired in build.rs, commit b7aaffe) now build well-formed code *)
+Theorem C05_K1_repaired :
+  parse k1_tokens = Ok k1_p /\
+  build (snd k1_p) empty_init lit_all (build_fuel (snd k1_p)) (fst k1_p) = Ok k1_r /\
+  instrs (fst k1_r) = [(I_Put, OExpr 1); (I_EndExpression, ONone); (I_EndExpression, ONone)] /\
+  jumps (fst k1_r) = [0; 2] /\
+  wf_code_b (snd k1_p) empty_init (code_of_build k1_r) = true.
+Proof. exact k1_fixed. Qed.
+Print Assumptions C05_K1_repaired.
 
-Theorem C05_K1_shared_refuted :
-  exists root nodes t r,
-    parse k1b_tokens = Ok (root, nodes) /\ tree_of nodes root = Some t /\
-    Known_C05_K1 k1b_init t /\
-    build nodes k1b_init lit_all (build_fuel nodes) root = Ok r /\
-    instrs (fst r) = [] /\
-    ~ wf_code nodes k1b_init (code_of_build r).
-Proof. exact K1_shared_refuted. Qed.
-Print Assumptions C05_K1_shared_refuted.
+Theorem C05_K1_shared_repaired :
+  parse k1b_tokens = Ok k1b_p /\
+  build (snd k1b_p) k1b_init lit_all (build_fuel (snd k1b_p)) (fst k1b_p) = Ok k1b_r /\
+  instrs (fst k1b_r) = [(I_EndExpression, ONone)] /\ jumps (fst k1b_r) = [2] /\
+  wf_code_b (snd k1b_p) k1b_init (code_of_build k1b_r) = true.
+Proof. exact k1b_fixed. Qed.
+Print Assumptions C05_K1_shared_repaired.
 
 Theorem C05_K2_refuted :
   exists t r,
@@ -95,12 +94,12 @@ Proof. exact C05_operands_meta_all_trees_proof. Qed.
 Print Assumptions C05_operands_meta_all_trees.
 
 (* the full statement: for every node array that is a proper tree below its
-   root and every initial state of the data object, outside the two classes,
+   root and every initial state of the data object, outside class C05-K2,
    a successful build by the tree compiler is well-formed *)
 Definition C05_full_statement : Prop :=
   forall nodes root t init lit r,
     tree_of nodes root = Some t ->
-    ~ Known_C05_K1 init t -> ~ Known_C05_K2 t ->
+    ~ Known_C05_K2 t ->
     compile init lit t = Ok r ->
     wf_code nodes init (code_of_compile r).
 
@@ -141,7 +140,7 @@ Print Assumptions C05_compile_same_code_full.
 
 (* C05_full and C05_operands_meta_all_trees, directly on BuilderWL.build *)
 Theorem C05_full_builder : forall nodes root t init lit fuel r,
-  tree_of nodes root = Some t -> ~ Known_C05_K1 init t -> ~ Known_C05_K2 t ->
+  tree_of nodes root = Some t -> ~ Known_C05_K2 t ->
   build nodes init lit fuel root = Ok r -> wf_code nodes init (code_of_build r).
 Proof. exact C05_full_builder_proof. Qed.
 Print Assumptions C05_full_builder.
@@ -167,7 +166,7 @@ Proof. exact parse_tree_of_proof. Qed.
 Print Assumptions C05_parse_tree_of.
 
 (* for EVERY token sequence the parser model accepts (no bound): the builder model's
-   result is the tree compiler's, and outside C05-K1 / C05-K2 it is well-formed *)
+   result is the tree compiler's, and outside C05-K2 it is well-formed *)
 Theorem compile_agrees_parsed : forall toks root nodes,
   parse toks = Ok (root, nodes) -> nodes <> [] ->
   exists t, tree_of nodes root = Some t /\
@@ -179,7 +178,7 @@ Print Assumptions compile_agrees_parsed.
 Theorem C05_full_parsed : forall toks root nodes,
   parse toks = Ok (root, nodes) -> nodes <> [] ->
   exists t, tree_of nodes root = Some t /\
-    forall init lit fuel r, ~ Known_C05_K1 init t -> ~ Known_C05_K2 t ->
+    forall init lit fuel r, ~ Known_C05_K2 t ->
       build nodes init lit fuel root = Ok r -> wf_code nodes init (code_of_build r).
 Proof. exact C05_full_parsed_proof. Qed.
 Print Assumptions C05_full_parsed.
@@ -193,7 +192,7 @@ Example C05_ex_nontrivial :
   | Ok (root, nodes) =>
     match tree_of nodes root, build nodes empty_init lit_all (build_fuel nodes) root with
     | Some t, Ok r =>
-      wf_code_b nodes empty_init (code_of_build r) = true /\ has_empty_body t = false /\ drops_arms t = false /\
+      wf_code_b nodes empty_init (code_of_build r) = true /\ drops_arms t = false /\
       length (jumps (fst r)) = 6
     | _, _ => False
     end
